@@ -368,6 +368,12 @@ func (w *Worker) binop(s *State, op token.Token, a, b Value, xt types.Type) Valu
 		return w.arith(s, op, x, y, xt)
 	case FloatV:
 		y := b.(FloatV)
+		if x.Ns != "" && y.Ns == "" && float64(int64(y.F*float64(x.Div))) == y.F*float64(x.Div) {
+			switch op {
+			case token.EQL, token.NEQ, token.LSS, token.LEQ, token.GTR, token.GEQ:
+				return intCmp(op, symInt(x.Ns), mkInt(int64(y.F*float64(x.Div))))
+			}
+		}
 		if x.Ns != "" || y.Ns != "" {
 			panic(engineErr("floating-point arithmetic on a symbolic duration"))
 		}
@@ -730,7 +736,8 @@ func (w *Worker) convert(s *State, v Value, from, to types.Type) Value {
 			if x.Ns != "" {
 				if tb.Info()&types.IsInteger != 0 {
 					// truncation toward zero of Ns/1e9
-					return symInt("(ite (>= " + x.Ns + " 0) (div " + x.Ns + " 1000000000) (- (div (- " + x.Ns + ") 1000000000)))")
+					d := fmt.Sprint(x.Div)
+					return symInt("(ite (>= " + x.Ns + " 0) (div " + x.Ns + " " + d + ") (- (div (- " + x.Ns + ") " + d + ")))")
 				}
 				return x
 			}
